@@ -303,7 +303,20 @@ fn layout_fields(out: &mut Vec<Field>, d: &[u8], rng: &mut Rng, t: &str) {
     if let Some(ll) = be16(d, 8) {
         f(out, &format!("{}.lookupCount", t), ll, 2, n);
         if let Some(cnt) = be16(d, ll) {
-            let k = pick_index(rng, cnt);
+            // contextual lookups get extra weight: their nested-lookup records are where
+            // recursion limits and sequence-index checks live
+            let contextual: Vec<usize> = (0..cnt.min(512))
+                .filter(|i| {
+                    be16(d, ll + 2 + 2 * i)
+                        .and_then(|lo| be16(d, ll + lo))
+                        .map_or(false, |ty| if t == "GSUB" { ty == 5 || ty == 6 } else { ty == 7 || ty == 8 })
+                })
+                .collect();
+            let k = if !contextual.is_empty() && rng.pct(40) {
+                contextual[rng.usize_below(contextual.len())]
+            } else {
+                pick_index(rng, cnt)
+            };
             f(out, &format!("{}.lookup.offset", t), ll + 2 + 2 * k, 2, n);
             if let Some(lo) = be16(d, ll + 2 + 2 * k) {
                 let l = ll + lo;
@@ -326,6 +339,12 @@ fn layout_fields(out: &mut Vec<Field>, d: &[u8], rng: &mut Rng, t: &str) {
                                 s += eo;
                             }
                         }
+                        let real_ty = if is_ext { be16(d, l + so + 2).unwrap_or(0) } else { ty };
+                        let ctx = (t == "GSUB" && real_ty == 5) || (t == "GPOS" && real_ty == 7);
+                        let chain = (t == "GSUB" && real_ty == 6) || (t == "GPOS" && real_ty == 8);
+                        if ctx || chain {
+                            context_record_fields(out, d, s, chain, k, cnt, rng, t);
+                        }
                         f(out, &format!("{}.subtable.format", t), s, 2, n);
                         f(out, &format!("{}.subtable.field1", t), s + 2, 2, n);
                         f(out, &format!("{}.subtable.field2", t), s + 4, 2, n);
@@ -346,6 +365,111 @@ fn layout_fields(out: &mut Vec<Field>, d: &[u8], rng: &mut Rng, t: &str) {
                         }
                     }
                 }
+            }
+        }
+    }
+}
+
+/// Sequence lookup records of a (chained) context subtable at `s`: their lookupListIndex can be
+/// made to name the lookup itself (`own`) or any other lookup, their sequenceIndex to leave the
+/// input sequence.
+#[allow(clippy::too_many_arguments)]
+fn context_record_fields(
+    out: &mut Vec<Field>,
+    d: &[u8],
+    s: usize,
+    chain: bool,
+    own: usize,
+    lookup_count: usize,
+    rng: &mut Rng,
+    t: &str,
+) {
+    let n = d.len();
+    // (offset of the first record, record count)
+    let mut recs: Option<(usize, usize)> = None;
+    match be16(d, s) {
+        Some(3) => {
+            if chain {
+                let mut p = s + 2;
+                let mut ok = true;
+                for _ in 0..3 {
+                    match be16(d, p) {
+                        Some(c) => p += 2 + 2 * c,
+                        None => {
+                            ok = false;
+                            break;
+                        }
+                    }
+                }
+                if ok {
+                    if let Some(c) = be16(d, p) {
+                        recs = Some((p + 2, c));
+                    }
+                }
+            } else if let (Some(gc), Some(sc)) = (be16(d, s + 2), be16(d, s + 4)) {
+                recs = Some((s + 6 + 2 * gc, sc));
+            }
+        }
+        Some(1) | Some(2) => {
+            // rule sets: format 1 at s+4 (count) / s+6 (offsets); format 2 (non-chain) at s+6 / s+8,
+            // chain format 2 at s+10 / s+12
+            let sets_at = match (be16(d, s), chain) {
+                (Some(1), _) => s + 4,
+                (Some(2), false) => s + 6,
+                _ => s + 10,
+            };
+            if let Some(sc) = be16(d, sets_at) {
+                let offs: Vec<usize> = (0..sc.min(64))
+                    .filter_map(|i| be16(d, sets_at + 2 + 2 * i))
+                    .filter(|o| *o != 0)
+                    .collect();
+                if !offs.is_empty() {
+                    let set = s + offs[rng.usize_below(offs.len())];
+                    if let Some(rc) = be16(d, set) {
+                        if rc > 0 {
+                            if let Some(ro) = be16(d, set + 2 + 2 * rng.usize_below(rc.min(32))) {
+                                let r = set + ro;
+                                if chain {
+                                    let mut p = r;
+                                    let mut ok = true;
+                                    for part in 0..3 {
+                                        match be16(d, p) {
+                                            Some(c) => {
+                                                let items = if part == 1 { c.saturating_sub(1) } else { c };
+                                                p += 2 + 2 * items;
+                                            }
+                                            None => {
+                                                ok = false;
+                                                break;
+                                            }
+                                        }
+                                    }
+                                    if ok {
+                                        if let Some(c) = be16(d, p) {
+                                            recs = Some((p + 2, c));
+                                        }
+                                    }
+                                } else if let (Some(gc), Some(c)) = (be16(d, r), be16(d, r + 2)) {
+                                    recs = Some((r + 4 + 2 * gc.saturating_sub(1), c));
+                                }
+                            }
+                        }
+                    }
+                }
+            }
+        }
+        _ => {}
+    }
+    if let Some((at, count)) = recs {
+        if count > 0 {
+            let k = rng.usize_below(count.min(16));
+            f(out, &format!("{}.context.record.sequenceIndex", t), at + 4 * k, 2, n);
+            f(out, &format!("{}.context.record.lookupIndex", t), at + 4 * k + 2, 2, n);
+            // the nested lookup is the lookup itself, or another (possibly contextual) one
+            fw(out, &format!("{}.context.record.self", t), at + 4 * k + 2, (own as u16).to_be_bytes().to_vec(), n);
+            if lookup_count > 0 {
+                let other = rng.usize_below(lookup_count) as u16;
+                fw(out, &format!("{}.context.record.other", t), at + 4 * k + 2, other.to_be_bytes().to_vec(), n);
             }
         }
     }
